@@ -82,13 +82,14 @@ def call_knap(case, values=None, weights=None):
     """Call the real function. values/weights: live argument objects (history mode); built fresh from the case otherwise.
     -> ("ok", solution, objective, status-name) | ("raised", text)"""
     from solvor.knapsack import solve_knapsack
+    from checks.guard import guarded
     den, vden = case.get("den", 1), case.get("vden", 1)
     af, cont = bool(case.get("as_float", False)), case.get("container", "list")
     if values is None:
         values = make_seq(case["values_u"], vden, af, cont)
         weights = values if case.get("alias") else make_seq(case["weights_u"], den, af, cont)
     try:
-        r = solve_knapsack(values, weights, num(case["cap_u"], den, af), minimize=bool(case.get("minimize", False)))
+        r = guarded("solve_knapsack", solve_knapsack, values, weights, num(case["cap_u"], den, af), minimize=bool(case.get("minimize", False)))
         return ("ok", r.solution, r.objective, getattr(r.status, "name", str(r.status)))
     except Exception as e:  # valid input: must come back
         return ("raised", f"{type(e).__name__}: {e}")
@@ -168,11 +169,12 @@ EXACT_BINS_MAX = 9  # exact optimum by subset decomposition up to this many posi
 
 def call_bin(case, sizes=None):
     from solvor.bin_pack import solve_bin_pack
+    from checks.guard import guarded
     den, af = case.get("den", 1), bool(case.get("as_float", False))
     if sizes is None:
         sizes = make_seq(case["sizes_u"], den, af, case.get("container", "list"))
     try:
-        r = solve_bin_pack(sizes, num(case["cap_u"], den, af), algorithm=case["algorithm"])
+        r = guarded("solve_bin_pack", solve_bin_pack, sizes, num(case["cap_u"], den, af), algorithm=case["algorithm"])
         return ("ok", r.solution, r.objective, getattr(r.status, "name", str(r.status)))
     except Exception as e:
         return ("raised", f"{type(e).__name__}: {e}")
